@@ -3,7 +3,7 @@
 # Re-runs the quick check of the owning property against a scratch clone of
 # /repo with seeded/<name>/patch.diff applied, refreshes check_quick.log and
 # the check fields of meta.json. Prints one line per seed.
-cd /verif
+cd ${VERIF_DIR:-/verif}
 for NAME in "$@"; do
   NAME=$(basename $NAME)
   OUT=/verif/seeded/$NAME
